@@ -203,8 +203,19 @@ def summarise(run, dom, body, where='', collect=False, parallel=None, target=Non
                     st0.heap[loc] = SymListO(z3.IntVal(0), z3.K(Int, PV.pv_none), o1.ekind)
                     retyped = True
                     break
+    # the same for a name bound to an empty list that the body rebinds to a sequence (`xs = list(); xs += ys`)
+    for nm in sorted(env_written):
+        v0 = env0[nm]
+        if isinstance(v0, Ref) and isinstance(st0.heap.get(v0.loc), ListO) and not st0.heap[v0.loc].items:
+            for kind, payload, st1, pctx, env1 in ends:
+                v1 = env1.get(nm)
+                if isinstance(v1, SeqV) and v1.kind in ('R', 'A', 'I'):
+                    empty = {'R': T.rempty, 'A': T.aempty, 'I': F('iempty', ISeq)()}[v1.kind]
+                    run.env[nm] = SeqV(v1.kind, empty, True)
+                    retyped = True
+                    break
     if retyped:
-        return summarise(run, dom, body, where=where, collect=collect, parallel=parallel)
+        return summarise(run, dom, body, where=where, collect=collect, parallel=parallel, target=target)
     # classify map columns / symbolic lists
     indexed = {}        # loc -> set(cols)  (maps), or loc -> 'list'
     built = set()       # maps that start empty and receive exactly the iterated keys
